@@ -259,6 +259,20 @@ func stripClone(v ssa.Value) ssa.Value {
 				v = c.Call.Args[0]
 				continue
 			}
+		case "builtin.append":
+			// append(<fresh empty slice>, x...) is a copy of x
+			if len(c.Call.Args) == 2 {
+				if sl, ok := c.Call.Args[0].(*ssa.Slice); ok {
+					if _, fresh := sl.X.(*ssa.Alloc); fresh {
+						v = c.Call.Args[1]
+						continue
+					}
+				}
+				if k, ok := c.Call.Args[0].(*ssa.Const); ok && k.IsNil() {
+					v = c.Call.Args[1]
+					continue
+				}
+			}
 		}
 		return v
 	}
